@@ -138,25 +138,37 @@ func applyAdmin(e *Env, r *mux.Router[*Comp], op *Op) (pan any) {
 		simrt.SetYieldBudget(0)
 	}()
 	simrt.SetYieldBudget(requestBudget)
+	// the method list is the caller's buffer: a private copy with spare capacity, overwritten as soon as
+	// the call returns (a library that keeps the slice instead of what it says sees garbage later)
+	var ms []string
+	if op.Methods != nil {
+		ms = append(make([]string, 0, len(op.Methods)+2), op.Methods...)
+		defer func() {
+			for i := range ms {
+				ms[i] = "X-CLOBBERED"
+			}
+			_ = append(ms, "X-SPARE")
+		}()
+	}
 	switch op.K {
 	case "handle", "badhandle":
 		h := e.Handler(op.HID, op.Script)
 		switch {
 		case strings.HasPrefix(op.Via, "prefix:"):
-			r.Prefix(op.Via[7:]).Handle(strings.TrimPrefix(op.Pattern, op.Via[7:]), h, e.MWs(op.MW...), op.Methods...)
+			r.Prefix(op.Via[7:]).Handle(strings.TrimPrefix(op.Pattern, op.Via[7:]), h, e.MWs(op.MW...), ms...)
 		case op.Via == "resource":
-			r.Resource(op.Pattern).Handle(h, e.MWs(op.MW...), op.Methods...)
+			r.Resource(op.Pattern).Handle(h, e.MWs(op.MW...), ms...)
 		default:
-			r.Handle(op.Pattern, h, e.MWs(op.MW...), op.Methods...)
+			r.Handle(op.Pattern, h, e.MWs(op.MW...), ms...)
 		}
 	case "remove":
 		switch {
 		case strings.HasPrefix(op.Via, "prefix:"):
-			r.Prefix(op.Via[7:]).Remove(strings.TrimPrefix(op.Pattern, op.Via[7:]), op.Methods...)
+			r.Prefix(op.Via[7:]).Remove(strings.TrimPrefix(op.Pattern, op.Via[7:]), ms...)
 		case op.Via == "resource":
-			r.Resource(op.Pattern).Remove(op.Methods...)
+			r.Resource(op.Pattern).Remove(ms...)
 		default:
-			r.Remove(op.Pattern, op.Methods...)
+			r.Remove(op.Pattern, ms...)
 		}
 	case "rclean":
 		r.Resource(op.Pattern).Clean()
